@@ -15,6 +15,7 @@ import pl
 import gen_program as gp
 import sem_oracle as so
 import c01_common as cc
+import c01_ground as cg
 
 META = {
     "id": "C01",
@@ -57,6 +58,79 @@ def _eval_cli(p):
     return cc.impl_cli(p.text())
 
 
+def _dump_formula(p):
+    return cc.evaluate(p.text(), fn=lambda: cg.dump(p))
+
+
+GROUND_MAX_WORLDS = 4096     # total choices of the FULL ground instantiation (2^12)
+
+
+def ground_stage(ctx, progs, impl, ref):
+    """C01ground: the stage program -> LogicFormula, per instance, through the verified validator
+    (coq/theories/C01ground): dump the real LogicFormula, map choice identities to its atoms, let the extracted
+    `validate_ground` enumerate every world of Sem's ground instantiation.  Verdicts: accepted = by theorem
+    C01ground_pipeline_is_Sem the pipeline model of C01pipe on THIS formula equals Sem.prob; rejected while the
+    final probabilities agree = broken correspondence; rejected and the probabilities differ = the judge has
+    already reported the program."""
+    try:
+        exe = cg.build(ctx)
+    except Exception as e:
+        ctx.broken.append("oracle:C01ground extraction/build failed")
+        ctx.notes.append(str(e)[-2000:])
+        return
+    sel = [i for i, p in enumerate(progs) if cg.n_worlds(p)[0] <= GROUND_MAX_WORLDS]
+    ctx.count("ground:too-many-worlds(not validated)", len(progs) - len(sel))
+    ctx.log("C01ground: dumping the LogicFormula of %d programs (<= %d worlds of the full instantiation)" % (len(sel), GROUND_MAX_WORLDS))
+    dumps = pl.pmap(_dump_formula, [progs[i] for i in sel])
+    lines, idx = [], []
+    for i, r in zip(sel, dumps):
+        if r[0] != "ok":
+            # the engine raised / timed out: the judge has compared that outcome with the oracle already
+            if r[1].startswith("INTERNAL:Unmappable"):
+                ctx.count("ground:unmappable")
+                ctx.broken.append("correspondence:C01ground cannot map the choice identities of %s (%s)"
+                                  % (progs[i].text().replace("\n", " "), r[1]))
+            else:
+                ctx.count("ground:engine-error(not validated)")
+            continue
+        try:
+            line, info = cg.encode(progs[i], r[1])
+        except cg.Unmappable as e:
+            ctx.count("ground:unmappable")
+            ctx.broken.append("correspondence:C01ground cannot map the choice identities of %s (%s)"
+                              % (progs[i].text().replace("\n", " "), e))
+            continue
+        lines.append(line)
+        idx.append(i)
+    ctx.log("C01ground: validating %d formulas" % len(lines))
+    jobs = max(1, min(14, os.cpu_count() or 1, (len(lines) + 3) // 4))
+    chunks = [list(range(j, len(lines), jobs)) for j in range(jobs)]
+    from concurrent.futures import ThreadPoolExecutor
+    outs = [None] * len(lines)
+    with ThreadPoolExecutor(max_workers=jobs) as ex:
+        for ch, res in zip(chunks, ex.map(lambda ch: ctx.oracle(exe, [lines[j] for j in ch], timeout=3000), chunks)):
+            for j, o in zip(ch, res):
+                outs[j] = o
+    nacc = 0
+    for i, o in zip(idx, outs):
+        ctx.cov["evaluations"] += 1
+        agree = cc.kind_of(impl[i], ref[i]) is None
+        text = progs[i].text().replace("\n", " ")
+        if o == "1":
+            nacc += 1
+            ctx.count("ground:accepted" if agree else "ground:accepted-but-final-result-differs(later stage; judged above)")
+        elif o.startswith("0"):
+            ctx.count("ground:rejected(%s)%s" % (o[2:], "" if agree else "-and-final-result-differs(judged above)"))
+            if agree:
+                ctx.broken.append("correspondence:C01ground validator rejects (%s) the LogicFormula of a program whose final "
+                                  "probabilities agree with the semantics: %s" % (o[2:], text))
+        else:
+            ctx.count("ground:oracle-error")
+            ctx.broken.append("oracle:C01ground %s on %s" % (o, text))
+    ctx.cov["ground_validated"] = len(lines)
+    ctx.cov["ground_accepted"] = nacc
+
+
 def judge(ctx, prog, impl, ref, via, state, impl_fn, tol=1e-9):
     """Compare one implementation outcome with the oracle outcome; report violations (shrunk, classified)."""
     if ref[0] == "err" and ref[1] not in ("InconsistentEvidence",):
@@ -87,6 +161,9 @@ def run(ctx):
     except Exception as e:  # translator failure: recorded, the judge below still runs
         ctx.broken.append("translator:C09 Clark model needed by C01pipe: %r" % (e,))
     ctx.prove("C01pipe/Props.v", timeout=1500)
+    # the stage program -> LogicFormula, per instance: verified validator + composition with the theorem above
+    # (coq/theories/C01ground, notes/C01ground.md)
+    ctx.prove("C01ground/Props.v", timeout=1500)
     try:
         so.build(ctx)
     except Exception as e:
@@ -121,6 +198,7 @@ def run(ctx):
             if v:
                 ctx.count("feature:" + f)
         judge(ctx, p, im, r, "default pipeline", state, cc.impl_default)
+    ground_stage(ctx, progs, impl, ref)
     # explicit 'ddnnf' backend on every third program, CLI on a few
     sub = [i for i in range(len(progs)) if i % 3 == 0]
     ctx.log("implementation ('ddnnf' backend) on %d programs" % len(sub))
